@@ -6,7 +6,22 @@ def knobs(r, i):
     return {"unsampled": True, "multi": True, "threads": 1 + i % 3, "cycle_density": i % 3}
 
 
+def mixed(first_unsampled):
+    """a span with a sampled and an unsampled parent is the local parent, a local span is open in its scope:
+    contexts and children taken there belong to the first parent's trace with that trace's own flag, and only the
+    sampled parent's trace receives records"""
+    ps = "u,a" if first_unsampled else "a,u"
+    return ["0 spawn", "1 spawn", "0 setReporter 0", "0 root a 7261 a1 1 1", "0 root u 7275 b2 2 0", "0 childN m 6d %s" % ps, "0 scope m", "0 ctxLocal",
+            "0 localEnter 6c", "0 ctxLocal", "0 childLocal c 63", "0 ctxOf c", "0 lAddEvent 65 none", "0 localEnter 6c32", "0 ctxLocal", "0 childLocal d 64",
+            "0 close", "0 close", "0 close", "1 child1 g 67 c", "1 ctxOf g", "1 drop g", "0 drop d", "0 drop c", "0 drop m", "0 drop u", "0 drop a", "0 cycle", "0 stats"]
+
+
+def extra(r):
+    return [("mixed/unsampled-first", mixed(True), ["no_panic", "tree", "exactly_once", "contexts"]),
+            ("mixed/sampled-first", mixed(False), ["no_panic", "tree", "exactly_once", "contexts"])]
+
+
 def run(v, tier, seed, replay):
-    seqcheck.run(v, tier, seed, replay, "C05", ["C05"], tree_oracles=["no_panic", "tree", "exactly_once", "contexts", "closures"], knobs=knobs,
+    seqcheck.run(v, tier, seed, replay, "C05", ["C05"], tree_oracles=["no_panic", "tree", "exactly_once", "contexts", "closures"], knobs=knobs, extra_cases=extra,
                  n_quick=(700, 100), n_thorough=(80000, 5000),
                  nontrivial=lambda lines, tr: any(l.split()[1] == "root" and l.endswith(" 0") for l in lines))
